@@ -164,6 +164,9 @@ def shape_corpus():
     a(mk("sub_bytes", [rx(b"(?&hi)+a"), rx(b"a")], subs=[("hi", b"[\x80-\xff]")], utf8=False))
     a(mk("sub_uni", [rx("(?&g)+"), rx("(?&g)x", prio=9)], subs=[("g", r"\p{Greek}")]))
     a(mk("sub_twice", [rx("(?&d)(?&d)-(?&d)"), rx("(?&d)")], subs=[("d", "[0-9]|x")]))
+    a(mk("sub_word", [rx("(?&w)="), rx("(?&w)")], [skip(" ")], subs=[("w", r"\w+")]))
+    a(mk("sub_negcls", [rx("<(?&n)>"), rx("[a-z]")], subs=[("n", "[^a-z<> ]+")]))
+    a(mk("sub_dot", [rx("x(?&d)y"), rx("[xy]")], subs=[("d", ".")]))
     # --- rejected definitions (verdict checks live elsewhere; T-amb uses these)
     a(mk("amb_cls", [rx("[a-c]+"), rx("[b-d]+")]))
     a(mk("amb_tok_rx", [tok("ab"), rx("a[b]", prio=4)]))
